@@ -104,7 +104,11 @@ let run_store store ops =
   | "oci" ->
     let u = build_u ops in
     let (_, outs) = run oci_step oci_init ops in
-    let (_, souts) = run (ospec_step u) ospec_init ops in
+    (* the specification is stated for canonical histories (one descriptor per digest) *)
+    let canonical = List.for_all (function
+        | Push (d, _) | Fetch d | Exists d | Preds d | Delete d | Tag (d, _) -> gkey_eqb (gk d) (u d.d_dig)
+        | _ -> true) ops in
+    let (_, souts) = if canonical then run (ospec_step u) ospec_init ops else ((), outs) |> fun (_, o) -> (ospec_init, o) in
     (List.map show_out outs, List.map show_out souts)
   | _ -> failwith "store"
 
